@@ -37,6 +37,8 @@ def main (args : List String) : IO UInt32 := do
       else if ws.head? == some "phvalid" || ws.head? == some "phupd" then (st, Driver.PHash.handle ws)
       -- transcript-hash / membership-tag rows on real message bytes (stateless)
       else if ws.head? == some "th" || ws.head? == some "thp" || ws.head? == some "mtag" then (st, Driver.TH.handle ws)
+      -- epoch secrets of a real path-less commit (stateless key-schedule row)
+      else if ws.head? == some "eks" then (st, (Driver.C13.step {} ws).2)
       else Driver.TreeD.step st ws) {}; return 0
   | ["c12"] => loopS stdin stdout (fun (_ : Unit) ws => ((), Driver.C12.handle ws)) (); return 0
   | ["c14"] => loopS stdin stdout (fun (_ : Unit) ws => ((), Driver.C14.handle ws)) (); return 0
